@@ -171,7 +171,7 @@ impl World {
     }
 }
 
-fn fail_code(k: usize) -> i64 { [202, 203, 204, 209][k % 4] }
+fn fail_code(k: usize) -> i64 { [202, 203, 204, 208, 209][k % 5] }
 
 fn wall() -> Duration { SystemTime::now().duration_since(UNIX_EPOCH).unwrap() }
 
@@ -475,8 +475,8 @@ fn walk_next(w: &mut World, r: &mut SplitMix, wt: &Value, pool: &Vec<Value>, ste
     for (h, c) in v.replied.iter() { opts.push((g("deliver", 30), json!({"e": "deliver", "h": h, "c": c}))); }
     for (h, p) in v.pend_parts.iter() {
         opts.push((g("part_done", 3), json!({"e": "part", "h": h, "pid": p, "st": "done"})));
-        let codes = [202, 203, 204, 209];
-        opts.push((g("part_fail", 3), json!({"e": "part", "h": h, "pid": p, "st": "fail", "code": codes[r.below(4) as usize]})));
+        let codes = [202, 203, 204, 208, 209];
+        opts.push((g("part_fail", 3), json!({"e": "part", "h": h, "pid": p, "st": "fail", "code": codes[r.below(5) as usize]})));
     }
     for (h, c) in v.running.iter() {
         opts.push((g("newpart", 10), json!({"e": "newpart", "h": h, "c": c})));
